@@ -47,8 +47,8 @@ example :
 /-- **`implicit_exact`** (one sibling level, the schema nodes that are not choices): `lyd_new_implicit` keeps every node that was
 there; afterwards a schema node has an instance iff it had one or is a node that gets implicit data — a non-presence container, a
 leaf with a default, a leaf-list with defaults, not state data under `LYD_IMPLICIT_NO_STATE` (RFC 7950 §7.5.1, §7.6.1, §7.7.2) — and
-every node that was not there before is such an implicit node: flagged default only, without children.  (Through choices: the law
-`implicit` of tools/checks/c07.py compares libyang with `rfcComplete`; findings F180, F188.) -/
+every node that was not there before is such an implicit node: flagged default only, without children.  (Through choices:
+`implicit_exact_choice` below; the whole tree against `rfcComplete` is the law `implicit` of tools/checks/c07.py; findings F180, F188.) -/
 theorem implicit_exact (S : Schema) (o : VOpts) (cx : Cx) (ks : List STree) (sibs : List DNode) :
     (∀ x ∈ sibs, x ∈ (implNodes S o cx ks sibs).1) ∧
     (∀ sid, hasInst (implNodes S o cx ks sibs).1 sid = (hasInst sibs sid || ks.any (fun k => wantsImplicit o k && k.sid == sid))) ∧
@@ -123,7 +123,8 @@ containers, lists in any nesting), every option set and EVERY tree that follows 
 `LYD_DEFAULT` its nodes carry (so: after any history of edits and validations): validating the result of a validation returns the
 same tree and an empty change set.  Hypotheses about the schema (`KidsLookupOk`: schema ids are unique; `NoChoiceX`, `NoCase`;
 the fuel of the walk covers the schema height) are decidable and hold for every parsed schema of the class; the theorem is
-stated for the model's continue-after-error semantics, so it does not even need the first validation to succeed. -/
+stated for the model's continue-after-error semantics, so it does not even need the first validation to succeed.  (Schemas with
+`choice` / `case`: `validate_idempotent_choice` below.) -/
 theorem validate_idempotent (X : SchemaX) (o : VOpts) (t : List DNode)
     (hl : KidsLookupOk X) (hnc : NoChoiceX X) (hc : NoCase X.base)
     (hp : placedL X X.top t = true) (hh : sheightL X.top ≤ walkFuel X t) :
@@ -331,6 +332,8 @@ theorem validate_idempotent_choice_F188_fails :
   have := congrArg List.length this
   revert this
   decide
+
+/-! ## auto-deletion of the leftover defaults of a case -/
 
 /-- **auto-deletion of leftover case defaults** (`lyd_validate_autodel_case_dflt` inside the node loop of `lyd_validate_new`, every
 schema and both variants): the loop leaves the explicit siblings as they are (same schema ids, same order — every deletion of the
